@@ -1,0 +1,52 @@
+// SPDX-License-Identifier: MIT OR Apache-2.0
+
+//! Verification hook (only compiled with `--cfg p2panda_p2panda_verif`).
+//!
+//! Gives an external correspondence harness access to the crate-private membership state
+//! functions of `group::crdt::state` and lets it build and inspect `MemberState` values, whose
+//! fields are `pub(crate)`. Nothing here changes behaviour; it only adds visibility.
+
+use std::hash::Hash;
+
+use crate::Access;
+pub use crate::group::crdt::state::{add, create, demote, merge, promote, remove};
+use crate::group::{GroupMembersState, MemberState};
+use crate::traits::Conditions;
+
+/// Build a member state from its three raw fields.
+pub fn member_state<C>(member_counter: usize, access: Access<C>, access_counter: usize) -> MemberState<C> {
+    MemberState {
+        member_counter,
+        access,
+        access_counter,
+    }
+}
+
+/// Raw fields of a member state: `(member_counter, access, access_counter)`.
+pub fn member_state_parts<C: Clone>(state: &MemberState<C>) -> (usize, Access<C>, usize) {
+    (state.member_counter, state.access.clone(), state.access_counter)
+}
+
+/// Build a group membership state from raw entries.
+pub fn members_state<ID, C>(entries: Vec<(ID, MemberState<C>)>) -> GroupMembersState<ID, C>
+where
+    ID: Clone + Hash + Eq,
+    C: Conditions,
+{
+    GroupMembersState {
+        members: entries.into_iter().collect(),
+    }
+}
+
+/// All raw entries of a group membership state (unordered).
+pub fn members_state_entries<ID, C>(state: &GroupMembersState<ID, C>) -> Vec<(ID, MemberState<C>)>
+where
+    ID: Clone + Hash + Eq,
+    C: Conditions,
+{
+    state
+        .members
+        .iter()
+        .map(|(id, m)| (id.clone(), m.clone()))
+        .collect()
+}
